@@ -10,7 +10,12 @@ CHECK = dict(
     technique="exhaustive enumeration of assignment-table x start-slot x failing-call x slow-call (x chain-reorg) scripts, each executed on "
               "the real scheduler.New + Run (real clock, default delay function) over the real eth2wrap ValidatorCache + DutiesCache and a "
               "scripted beacon-node stub inside a testing/synctest bubble, judged in exact virtual time from the duty-subscriber log, the "
-              "slot-subscriber log and the stub's call log",
+              "slot-subscriber log and the stub's call log; plus a WALL-CLOCK STEP dimension: in scripts with a step the scheduler reads "
+              "its wall clock through a clock seam (a clockwork.Clock whose Now/Since/Until = bubble time + offset while "
+              "After/Sleep/NewTimer/NewTicker/AfterFunc stay on the bubble's monotonic clock for the requested duration; the production "
+              "delay function time.After(time.Until(deadline)) stays in the loop and is handed deadline-offset, i.e. its time.Until reads "
+              "the stepped clock), the script steps the offset once, and every trigger / tick is logged with both the monotonic instant "
+              "and the node's clock reading",
     claim="complete product of 5 assignment tables (attester duty in first/last slot of the epoch; two proposals by one validator and three "
           "validators attesting in one slot; proposer duty in the first slot of the run and of later epochs; sync-committee duties across epoch "
           "boundaries; a misbehaving node returning duties of un-asked validators and a proposer duty with a wrong pubkey for a known index) x "
@@ -18,7 +23,14 @@ CHECK = dict(
           "calls to validators/attester/proposer/sync duties x {no slow call, one of the first 16 calls taking 1.5 / 2.5 / 3.5 slots (late and "
           "skipped ticks)} x chain-reorg event {none; 5 s into run slot 2, 3 or 7, delivered to HandleChainReorgEvent (feature on) and to the duties "
           "cache}; 4 slots/epoch, 12 s slots, 12 slots per run, cluster validators 1,2 active, 3 activating at the third epoch, 4 exited, "
-          "foreign validator 9",
+          "foreign validator 9. CLOCK STEPS: complete product of one wall-clock step of delta in {-48 s (one epoch), -18 s (1.5 slots), "
+          "-6 s (half a slot), -1 ms, +1 ms, +6 s, +18 s, +48 s} x instant in {250 ms before the start of run slot k (k=1..11), 250 ms "
+          "after it (k=1..11), 5.5 s into run slot k (k=0..11, between the attester and the aggregator offset) - this includes just "
+          "before / after every epoch boundary of the run - and 'while beacon call #c is in flight' (c=0..15: the call takes 1 s, the "
+          "step happens 0.5 s into it; if the same call is also the slow call, the slow duration follows; a call index the run never "
+          "reaches = no step, counted)} = 400 steps, combined: quick = step alone on all 5 tables x 3 start slots, and step x one "
+          "failing call (16 placements) on the first table x 3 start slots; thorough = on all 5 tables x 3 start slots: step alone, "
+          "step x one failing call (16), step x one slow call (16 placements x 1.5/2.5/3.5 slots), step x reorg event (run slot 2, 3, 7)",
     trusted="testing/synctest virtual time; the stub answers exactly for the indices/pubkeys it is asked about; map iteration rotation and "
             "select order pinned (runtime overlay: receive cases polled in source order) so that a script replays identically up to the order "
             "of same-instant events and the race at the stop instant; the per-epoch cache refresh of app/app.go is "
@@ -34,8 +46,32 @@ CHECK = dict(
          "resolution completes (or earlier) triggering is allowed but not required. One exemption in the safety part: a duty of validator 3 "
          "in an epoch before its activation is not held against the scheduler once the node itself has reported 3 as active (a validators "
          "answer for a state in the activation epoch or later returned before the trigger - the 'head' fallback answered while a late tick "
-         "of the previous epoch is processed); only the stub, unlike a real node, assigns duties before activation. Non-trivial class = table/start/failing-call kind@index/"
-         "slow-call duration:kind@index(/reorg slot)",
-    assumptions=ENUMX_ASSUME,
-    budget_s={"quick": 100, "thorough": 1500},
+         "of the previous epoch is processed); only the stub, unlike a real node, assigns duties before activation. "
+         "CLOCK-STEP SCRIPTS: the unconditional clauses (no duty twice; nothing for foreign / inactive / unassigned; definition sets equal "
+         "the node's assignment) are unchanged and strict. 'Not before its time' is judged on the node's own clock at the moment of the "
+         "trigger (clock reading >= slot start + offset); after a BACKWARD step a trigger that is early by the stepped clock but on time "
+         "by the clock without the step (the time line on which its timer was armed) is counted (clock_step_triggers_early_by_stepped_clock_only) and not "
+         "alarmed - the statement does not say which clock is the reference across a step, so only a trigger early on both time lines is "
+         "a violation (env C15_STRICT_STEP_CLOCK=1 alarms on the stepped clock alone, for information). COMPLETENESS under a step: no "
+         "slot is exempted because of the step as such; a duty (type, slot s) is required iff the tick of s was delivered at a monotonic "
+         "instant strictly after T(epoch(s)) [instead of start(s) > T: a step makes ticks early, late or swallows them like a missed "
+         "tick - a swallowed slot has no tick], s is later than every slot the scheduler had begun scheduling up to T (resolution drops "
+         "duties of slots before the resolving one), the slot has ended for good by the stop instant [start(s)+slot, plus |delta| after "
+         "a backward step, <= stop] and a later slot was being scheduled before the stop. Signatures of step scripts end in "
+         "'dim=clock-step' (env C15_ONLY=base|step runs one part only and reports exhaustive:false). One open known finding of this "
+         "dimension (thorough tier): C15-clock-epoch-ahead-activated-validator-dropped. "
+         "Non-trivial class = table/start/failing-call kind@index/slow-call duration:kind@index(/reorg slot)(/step=delta@instant)",
+    assumptions=ENUMX_ASSUME + [
+        "C15 clock steps: the node's wall clock is modelled as monotonic time + one step (no slewing, no second step); timers are "
+        "monotonic as in the Go runtime; the beacon node's own clock is not stepped; the step is visible to the scheduler through Scheduler.clock and through the "
+        "deadline handed to its delay function - a direct time.Now() elsewhere in the package (today only the default delay function, "
+        "which is covered, and waitForEarlyFetchOrTimeout behind the FetchAttOnBlock feature flags, which are off here) would read the unstepped bubble clock",
+        "C15: under a wall-clock step, earliness is judged on the time line on which the timer was armed or the stepped clock, "
+        "whichever is more lenient (the unchanged scheduler does not re-read the clock after a sleep: counter "
+        "clock_step_triggers_early_by_stepped_clock_only)",
+        "C15 clock steps: the stub answers validators / duties requests for states and epochs ahead of its own (unstepped) head, "
+        "which a real beacon node refuses; with the node's clock ahead, resolution therefore succeeds here where it would be retried "
+        "against a real node",
+    ],
+    budget_s={"quick": 120, "thorough": 1500},
 )
